@@ -363,16 +363,22 @@ void mmd_export_image_html(DString * out, const char * source, token * text, lin
 				store_asset(scratch, link->url);
 			}
 
-			printf("<img src=\"%s\"", link->url);
+			print_const("<img src=\"");
+			mmd_print_string_html(out, link->url, false, false);
+			print_const("\"");
 		}
 	} else {
 		print_const("<img src=\"\"");
 	}
 
 	if (text) {
+		// The alternate text is an attribute value, so it needs to be escaped
+		DString * alt = d_string_new("");
+		print_token_tree_raw(alt, source, text->child);
 		print_const(" alt=\"");
-		print_token_tree_raw(out, source, text->child);
+		mmd_print_string_html(out, alt->str, false, false);
 		print_const("\"");
+		d_string_free(alt, true);
 	}
 
 	if (link->label && !(scratch->extensions & EXT_COMPATIBILITY)) {
@@ -383,7 +389,9 @@ void mmd_export_image_html(DString * out, const char * source, token * text, lin
 	}
 
 	if (link->title && link->title[0] != '\0') {
-		printf(" title=\"%s\"", link->title);
+		print_const(" title=\"");
+		mmd_print_string_html(out, link->title, false, false);
+		print_const("\"");
 	}
 
 	while (a) {
@@ -691,8 +699,9 @@ void mmd_export_token_html(DString * out, const char * source, token * t, scratc
 					break;
 				}
 
-				print_const("<pre><code");
-				printf(" class=\"%s\"", temp_char);
+				print_const("<pre><code class=\"");
+				mmd_print_string_html(out, temp_char, false, false);
+				print_const("\"");
 				free(temp_char);
 			} else {
 				print_const("<pre><code");
@@ -2357,7 +2366,9 @@ void mmd_start_complete_html(DString * out, const char * source, scratch_pad * s
 	HASH_FIND_STR(scratch->meta_hash, "language", m);
 
 	if (m) {
-		printf(" lang=\"%s\"", m->value);
+		print_const(" lang=\"");
+		mmd_print_string_html(out, m->value, false, false);
+		print_const("\"");
 	} else {
 		switch (scratch->language) {
 			case LC_ES:
